@@ -11,11 +11,19 @@ package dnsmessage
 //   VerifC37_bytes     short header (11 bytes) or header + 0..7 (thorough 10) arbitrary body bytes, any section counts <= 2/1/1/1
 //   VerifC37_rec_*     one record of each of the 13 body kinds with arbitrary class/TTL/RDATA, RDLENGTH = R-1..R+1,
 //                      in 3 layouts (truncated; compressed owner name + misaligned follower record; after a question)
+//   VerifC37_ptrlimit  byte strings > 16 KiB whose names sit around offset 0x3FFF/0x4000 (the 14-bit compression
+//                      pointer limit): accepted => re-pack (with compression) / re-unpack gives an equal message
 // Every message goes through c37message: no panic; Unpack == record-by-record Parser (Xxx, XxxHeader + typed body
 // method); Skip twins reach the same state; decoded names canonical; accepted => Pack ok and Unpack(Pack(m)) == m
 // (equality of DESIGN.md §5: ResourceHeader.Length ignored, nil == empty).
 //
-// FINDING on the unchanged tree (key C37-rdlength-past-end, repro/C37/rdlength_past_end_test.go, reproduces natively
+// A record that Answer/Authority/Additional reject is also fed to XxxHeader + the typed body method of its type
+// (c37rejectedRecord): no panic, and no decoded record either.
+// FINDING on the unchanged tree (key C37-typed-rdlength-past-end, repro/C37/typed_rdlength_past_end_test.go, reproduces
+// natively through the public API): AnswerHeader + AResource (any typed body method) decode a record whose RDLENGTH runs
+// past the end of the message, which Message.Unpack, Parser.Answer and SkipAnswer reject with errResourceLen.
+//
+// REPAIRED finding (commit 31ac969 in /repo; key C37-rdlength-past-end, repro/C37/rdlength_past_end_test.go, reproduces natively
 // through the public API): Parser.Answer/Authority/Additional and Message.Unpack accept a record whose RDLENGTH runs
 // past the end of the message (parser offset ends beyond len(msg)), SkipAnswer/... reject it with errResourceLen.
 //
@@ -24,6 +32,9 @@ package dnsmessage
 //   M2 message.go Name.unpack: delete the `if v == '.'` rejection -> caught by VerifC37_name ("unpack accepts exactly the well-formed names")
 //   M3 message.go skipResource `newOff > len(msg)` -> `newOff >= len(msg)`  caught by VerifC37_rec_plain ("Skip succeeds where the parse method succeeds")
 //   M4 message.go Name.unpack `>= nonEncodedNameMax` -> `> nonEncodedNameMax+1`  caught by VerifC37_longname ("question name canonical")
+// Seeded changes (seedtest.sh, both caught in the quick tier, confirmed natively):
+//   C37-C message.go Name.pack `newPtr <= int(^uint16(0)>>2)` -> `>>1`   caught by VerifC37_ptrlimit ("re-packed message unpacks" / "... decodes to an equal message")
+//   C37-D message.go unpackText `off >= len(msg)` -> `off > len(msg)`     caught by VerifC37_rec_plain (index out of range in unpackText via Parser.TXTResource on a rejected record)
 
 func init() {
 	vfRegister("VerifC37_name", VerifC37_name)
@@ -35,6 +46,7 @@ func init() {
 	vfRegister("VerifC37_header", VerifC37_header)
 	vfRegister("VerifC37_longname", VerifC37_longname)
 	vfRegister("VerifC37_chain", VerifC37_chain)
+	vfRegister("VerifC37_ptrlimit", VerifC37_ptrlimit)
 }
 
 // c37refName is the reference name decoder (RFC 1035 4.1.4 + the package's documented limits): it walks the wire
@@ -179,14 +191,9 @@ func VerifC37_name() {
 // message equality (DESIGN.md §5: field by field, ignoring ResourceHeader.Length, nil == empty slice)
 
 func c37eqBytes(a, b []byte) bool {
-	if len(a) != len(b) {
-		return false
-	}
-	ok := true
-	for i := range a {
-		ok = vfAnd(ok, a[i] == b[i])
-	}
-	return ok
+	// string comparison of symbolic bytes yields one formula in the engine (no fork), like a vfAnd chain, but
+	// without interpreting a loop iteration per byte (16 KiB payloads in the *_ptrlimit harnesses)
+	return string(a) == string(b)
 }
 
 func c37eqHeader(a, b *Header) bool {
@@ -391,6 +398,61 @@ func c37typed(p *Parser, typ ResourceBody) (ResourceBody, error) {
 	return &r, err
 }
 
+// c37typedOf parses the body through the typed Parser method matching a header type (after an XxxHeader call).
+func c37typedOf(p *Parser, t Type) (ResourceBody, error) {
+	switch t {
+	case TypeA:
+		return c37typed(p, (*AResource)(nil))
+	case TypeAAAA:
+		return c37typed(p, (*AAAAResource)(nil))
+	case TypeNS:
+		return c37typed(p, (*NSResource)(nil))
+	case TypeCNAME:
+		return c37typed(p, (*CNAMEResource)(nil))
+	case TypePTR:
+		return c37typed(p, (*PTRResource)(nil))
+	case TypeMX:
+		return c37typed(p, (*MXResource)(nil))
+	case TypeSOA:
+		return c37typed(p, (*SOAResource)(nil))
+	case TypeSRV:
+		return c37typed(p, (*SRVResource)(nil))
+	case TypeTXT:
+		return c37typed(p, (*TXTResource)(nil))
+	case TypeOPT:
+		return c37typed(p, (*OPTResource)(nil))
+	case TypeSVCB:
+		return c37typed(p, (*SVCBResource)(nil))
+	case TypeHTTPS:
+		return c37typed(p, (*HTTPSResource)(nil))
+	}
+	return c37typed(p, (*UnknownResource)(nil))
+}
+
+const c37kfTypedLen = "C37-typed-rdlength-past-end"
+
+// c37rejectedRecord: the record at p0 is rejected by Answer/Authority/Additional (and therefore by Message.Unpack).
+// The other route through the same bytes - XxxHeader followed by the typed body method of the header's type - must not
+// panic (implicit run-time panics are violations) and must not decode a record either ("Unpack and the streaming Parser
+// agree on the decoded message"). The typed methods have no bounds pre-check of their own (unpackResourceBody has one):
+// they rely on the checks inside the body decoders, which is exactly what this exercises on truncated records and on
+// RDLENGTH values that run past the end of the message.
+func c37rejectedRecord(p0 *Parser, sec int, msg []byte) (events int) {
+	t := *p0
+	hh, herr := c37resHeader(&t, sec)
+	if herr != nil {
+		return c37RejHeader
+	}
+	past := t.off+int(hh.Length) > len(msg) // RDLENGTH runs past the end of the message
+	_, berr := c37typedOf(&t, hh.Type)
+	vfObserveBool("typed body method error on a rejected record", berr != nil)
+	vfAssertKF(berr != nil, "typed body method rejects a record that Answer/Authority/Additional reject", c37kfTypedLen, past)
+	if past {
+		return c37RejPastTyped
+	}
+	return c37RejBodyTyped
+}
+
 func c37resource(p *Parser, sec int) (Resource, error) {
 	switch sec {
 	case 0:
@@ -431,9 +493,16 @@ const (
 	c37QuestionParsed
 	c37ResourceParsed
 	c37PastEnd
+	c37RejHeader    // a record rejected by Xxx: XxxHeader rejects it too
+	c37RejPastTyped // ... XxxHeader accepts it, RDLENGTH runs past the end of the message, typed body method tried
+	c37RejBodyTyped // ... XxxHeader accepts it, RDLENGTH within the message, typed body method tried
 )
 
-func c37message(msg []byte, onPast func()) (events int) {
+func c37message(msg []byte, onPast func()) (events int) { return c37messageFrom(msg, onPast, 0) }
+
+// c37messageFrom: as c37message, but only packed[from:] is recorded as an observation (large concrete padding in
+// front of the interesting part need not be stored with every sampled path).
+func c37messageFrom(msg []byte, onPast func(), from int) (events int) {
 	var m Message
 	uerr := m.Unpack(msg)
 	vfObserveBool("unpack ok", uerr == nil)
@@ -483,6 +552,7 @@ func c37message(msg []byte, onPast func()) (events int) {
 				break
 			}
 			if err != nil {
+				events |= c37rejectedRecord(&p0, sec, msg)
 				good = false
 				break
 			}
@@ -544,7 +614,10 @@ func c37message(msg []byte, onPast func()) (events int) {
 	err2 := m2.Unpack(packed)
 	vfAssert(err2 == nil, "re-packed message unpacks")
 	vfAssert(c37eqMsg(&m2, &sm), "re-packed message decodes to an equal message")
-	vfObserveBytes("packed", packed)
+	if from <= len(packed) {
+		vfObserveBytes("packed", packed[from:])
+	}
+	vfObserve("packed len", uint64(len(packed)))
 	return events | c37Accepted
 }
 
@@ -758,6 +831,12 @@ func c37record(kind int) {
 	if ev&c37ResourceParsed != 0 {
 		vfReach("resource parsed")
 	}
+	if ev&c37RejPastTyped != 0 {
+		vfReach("rejected record with RDLENGTH past the end: typed body method tried")
+	}
+	if ev&c37RejBodyTyped != 0 {
+		vfReach("rejected record with a malformed body: typed body method tried")
+	}
 	vfReach("end")
 }
 
@@ -859,6 +938,104 @@ func VerifC37_chain() {
 		if hops == 11 {
 			vfReach("11 hops rejected")
 		}
+	}
+	vfReach("end")
+}
+
+// Byte strings longer than 16 KiB: "any message Unpack accepts re-packs and re-unpacks to an equal message" where the
+// re-packed message extends beyond what a 14-bit compression pointer can address (offsets > 0x3FFF).
+// Wire shape (concrete), contents symbolic: header; optional question "y.z."; an unknown-type record (owner root,
+// type 0xFF00) whose concrete RDATA padding puts the owner name of the next record at S = 0x4000-d (d chosen by
+// fork: every alignment of the labels relative to the pointer limit); an A record owned by the 3-label name
+// "pq.x.a." (label offsets S, S+3, S+5; all label bytes arbitrary - a '.' makes Unpack reject the message); a CNAME
+// record whose owner and target are each written as one of the wire forms "a." / "x.a." / "pq.a." / "pq.x.a."
+// (uncompressed: they repeat suffixes of the straddling name) or, with a question, as a pointer to the question name.
+// When the message is re-packed, Pack compresses the repeated suffixes: a suffix that was first written beyond 0x3FFF
+// cannot be pointed at. Everything goes through c37message (all oracles: Unpack vs step parser vs Skip twins,
+// canonical names, Pack, Unpack again, equality).
+func VerifC37_ptrlimit() {
+	thorough := vfTier() > 0
+	a, x, p, q := vfU8("a"), vfU8("x"), vfU8("p"), vfU8("q")
+	y, z := vfU8("y"), vfU8("z")
+	if !thorough {
+		// quick tier (assumed bound): only the bytes a and x may be '.' (a '.' inside a label: message rejected)
+		vfAssume(vfAnd(vfAnd(p != '.', q != '.'), vfAnd(y != '.', z != '.')))
+	}
+	withQ := vfChoice("with question", 2) == 1
+	msg := []byte{0, 7, 0x81, 0x80, 0, 0, 0, 3, 0, 0, 0, 0}
+	if withQ {
+		msg[5] = 1
+		msg = append(msg, 1, y, 1, z, 0, 0, 1, 0, 1) // may equal "x.a.": entries at low offsets
+	}
+	// d = 0x4000 - (offset of the first label of the straddling name): <= 0: no label is addressable; 1..3: only the
+	// first; 4..5: the first two; >= 6: all three.
+	d := vfLen("distance below 0x4000", -vfTier(), 6+3*vfTier())
+	start := 0x4000 - d
+	n := start - len(msg) - 11
+	msg = append(msg, 0, 0xFF, 0, 0, 1, 0, 0, 0, 0, byte(n>>8), byte(n))
+	pad := make([]byte, 0, 0x8000)
+	for i := 0; i < 64; i++ {
+		pad = append(pad, byte(i*7+1))
+	}
+	for len(pad) < n {
+		pad = append(pad, pad...) // concrete non-zero pattern, built by doubling (cheap to interpret)
+	}
+	msg = append(msg, pad[:n]...)
+	vfAssert(len(msg) == start, "padding places the next record at the chosen offset")
+	msg = append(msg, 2, p, q, 1, x, 1, a, 0, 0, 1)
+	msg = append(msg, vfBytes("class+ttl", 6)...)
+	msg = append(msg, 0, 4)
+	msg = append(msg, vfBytes("a", 4)...)
+	form := func(label string, quick []int) []byte {
+		var k int
+		if thorough {
+			k = vfChoice(label, 5)
+		} else {
+			k = quick[vfChoice(label, len(quick))]
+		}
+		switch k {
+		case 0:
+			return []byte{1, a, 0}
+		case 1:
+			return []byte{1, x, 1, a, 0}
+		case 2:
+			return []byte{2, p, q, 1, a, 0}
+		case 3:
+			return []byte{2, p, q, 1, x, 1, a, 0}
+		}
+		if withQ {
+			return []byte{0xC0, 12}
+		}
+		return []byte{0}
+	}
+	owner2 := form("later owner", []int{0, 1, 2, 3, 4})
+	target2 := form("later target", []int{1, 2, 3})
+	msg = append(msg, owner2...)
+	msg = append(msg, 0, 5)
+	msg = append(msg, vfBytes("class+ttl 2", 6)...)
+	msg = append(msg, 0, byte(len(target2)))
+	msg = append(msg, target2...)
+	if thorough {
+		// trailing bytes after the last record are ignored by Unpack
+		msg = append(msg, vfBytes("trailing", vfLen("trailing bytes", 0, 1))...)
+	}
+
+	ev := c37messageFrom(msg, nil, start-4)
+	if ev&c37Accepted != 0 {
+		vfReach("accepted")
+		switch {
+		case d <= 0:
+			vfReach("accepted: name starts beyond the pointer limit")
+		case d == 1:
+			vfReach("accepted: name starts at the last addressable offset")
+		case d < 6:
+			vfReach("accepted: name straddles the pointer limit")
+		default:
+			vfReach("accepted: name entirely below the pointer limit")
+		}
+	}
+	if ev&c37Rejected != 0 {
+		vfReach("rejected")
 	}
 	vfReach("end")
 }
